@@ -1093,6 +1093,23 @@ void ConstrainedFDLayout::moveTo(const vpsc::Dim dim, Position& target) {
         moveBoundingBoxes();
     }
     updateCompoundConstraints(dim, ccs);
+    if (unsatisfiable.size() == 2)
+    {
+        // Report user constraints dropped by this projection.  (Generated
+        // non-overlap and containment constraints are owned by
+        // extraConstraints and freed at the end of run(), so they are not
+        // reported from here.)
+        for (vpsc::Constraints::const_iterator c = cs.begin();
+                c != cs.end(); ++c)
+        {
+            if ((*c)->unsatisfiable && (std::find(ccs.begin(), ccs.end(),
+                    (cola::CompoundConstraint *) (*c)->creator) != ccs.end()))
+            {
+                unsatisfiable[dim]->push_back(
+                        new UnsatisfiableConstraintInfo(*c));
+            }
+        }
+    }
     for_each(vs.begin(),vs.end(),delete_object());
     for_each(cs.begin(),cs.end(),delete_object());
 }
